@@ -86,6 +86,7 @@ def run(ctx):
     loader_no_panic(ctx, q)
     assemble_index(ctx, q, S)
     disas_constant(ctx, q, S, rp)
+    literal_rendering(ctx, q, S, rp)
     disas_ext_inst(ctx, q, S, rp)
     rp.close()
     ctx.validated = rp.count
@@ -145,6 +146,36 @@ def loader_no_panic(ctx, q):
                               {"cmd": "loader_step %d %d %d" % (fopen, bopen, w)})
         if not bad:
             ctx.ob("loader/no-panic/f=%s,b=%s" % (fopen, bopen), True, "%d paths" % len(res))
+        # the induction is over the three states with 'a block is open only inside an open function': every step must stay
+        # inside that set, otherwise the states explored above are not all the reachable ones
+        broke = None
+        for r in res:
+            if r.status != "return" or not (isinstance(r.value, sym.Adt) and r.value.variant == "Continue"):
+                continue      # after Stop / Error the parse ends and the loader is dropped
+            l1 = r.mem[("h", "loader")]
+            f1, b1 = l1.fields[1], l1.fields[2]
+            if not (isinstance(f1, sym.Adt) and isinstance(b1, sym.Adt)):
+                ctx.ob("loader/invariant/f=%s,b=%s" % (fopen, bopen), None, "post-state is not concrete: %r %r" % (f1, b1))
+                broke = "?"
+                continue
+            if f1.variant == "None" and b1.variant == "Some":
+                st, m = q.check(r.pc, "loader-invariant")
+                if st == "sat":
+                    w = m.eval(op, model_completion=True).as_long()
+                    rp = Replay()
+                    real = rp.ask("loader_step %d %d %d" % (fopen, bopen, w))
+                    rp.close()
+                    broke = names_of[w][0]
+                    if real.get("f") is False and real.get("b") is True:
+                        ctx.ob("loader/invariant/f=%s,b=%s" % (fopen, bopen), False, "Op%s leaves a block open without a function" % broke)
+                        ctx.violation("loader/invariant/%s" % broke, "Op%s in state (function open=%s, block open=%s) leaves the loader with an open block but no open "
+                                      "function (answer %s); the next block-level instruction then unwraps the missing function and panics" % (broke, fopen, bopen, real.get("answer")),
+                                      {"cmd": "loader_step %d %d %d" % (fopen, bopen, w), "real": real})
+                    else:
+                        ctx.ob("loader/invariant/f=%s,b=%s" % (fopen, bopen), None, "model-only: %s" % real)
+                    break
+        if broke is None:
+            ctx.ob("loader/invariant/f=%s,b=%s" % (fopen, bopen), True)
 
 
 def assemble_index(ctx, q, S):
@@ -246,6 +277,72 @@ def disas_constant(ctx, q, S, rp):
                               {"cmd": "load_disassemble %s" % words, "real": real})
             else:
                 ctx.ob(tag, None, "panic edge feasible in the model but not natively: %s" % str(real)[:200])
+
+
+def literal_rendering(ctx, q, S, rp):
+    """`DisassembleLiteralBit::disas_literal_bit` for u32 and u64 (the typed rendering of OpConstant literals): any bit pattern
+    under ANY tracked type — `Integer(width, signed)` / `Float(width)` with the width an arbitrary u32: the tracker records
+    whatever OpTypeInt / OpTypeFloat declared, and the literal's word count was fixed by the parser's view, which may differ
+    (constant before its type, type id redeclared). No arithmetic / shift / unwrap panic edge may be feasible."""
+    def m_text(engine, st, fr, callee, args, ops):
+        return sym.Sym(engine.fresh_name("text"), "String")
+
+    def m_opaque_float(engine, st, fr, callee, args, ops):
+        return sym.Sym(engine.fresh_name("float"), "f")
+    cands = [x for x in S.mf.find("disas_literal_bit", kind="fn") if "closure" not in x[0]]
+    if not cands:
+        ctx.ob("disassemble/literal-rendering/encodable", None, "no disas_literal_bit in the MIR dump")
+        return
+    for name, k, ln in cands:
+        fn = S.mf.parse_item(ln)
+        vty = fn.args[0][1].strip()
+        if vty not in sym.INT_TYPES:
+            continue
+        width, signed = z3.BitVec("type_width", 32), z3.Bool("type_signed")
+        for tname, tval in (("Integer", sym.Adt("tracker::Type", "Integer", [width, signed])), ("Float", sym.Adt("tracker::Type", "Float", [width]))):
+            eng = S.engine([(r"as (std::string::)?ToString>::to_string$", m_text), (r"^core::f(32|64)::<impl f(32|64)>::from_bits$", m_opaque_float),
+                            (r"^(alloc::|std::)?fmt::format$|^format::", m_text)], loop_bound=4)
+            val = z3.BitVec("literal", sym.INT_TYPES[vty][0])
+            tag = "disassemble/literal-rendering/%s-as-%s" % (vty, tname)
+            try:
+                res = eng.run(fn, [val, sym.Ref(("h", "ty"), ())], mem={("h", "ty"): tval})
+            except mir.Unsupported as ex:
+                ctx.ob(tag, None, "not encodable: %s" % str(ex)[:300])
+                continue
+            ctx.functions.update(eng.stats.functions)
+            bad = None
+            for r in res:
+                if r.status == "return":
+                    continue
+                st_, m = q.check(r.pc, "literal-rendering-panic")
+                if st_ == "sat":
+                    bad = (r, m)
+                    break
+                if st_ != "unsat":
+                    ctx.ob(tag, None, "solver: %s" % m)
+            if bad is None:
+                ctx.ob(tag, True, "%d paths" % len(res))
+                continue
+            r, m = bad
+            w = m.eval(width, model_completion=True).as_long()
+            sg = 1 if z3.is_true(m.eval(signed, model_completion=True)) else 0
+            v = m.eval(val, model_completion=True).as_long()
+            # witness module: the constant precedes the declaration of its type, so the parser reads one word (or, for u64, the
+            # type is redeclared after a 64-bit constant) while the disassembler sees the declared width
+            le = c03.le
+            decl = (le(4 << 16 | 21) + le(1) + le(w) + le(sg)) if tname == "Integer" else (le(3 << 16 | 22) + le(1) + le(w))
+            if vty == "u32":
+                words = c03.HEADER + le(4 << 16 | 43) + le(1) + le(2) + le(v) + decl
+            else:
+                first = (le(4 << 16 | 21) + le(1) + le(64) + le(sg)) if tname == "Integer" else (le(3 << 16 | 22) + le(1) + le(64))
+                words = c03.HEADER + first + le(5 << 16 | 43) + le(1) + le(2) + le(v & 0xffffffff) + le(v >> 32) + decl
+            real = rp.ask("load_disassemble %s" % words)
+            if "panic" in real:
+                ctx.ob(tag, False, "%s; native: %s" % (r.info, real["panic"]))
+                ctx.violation("disassemble/panic/literal-rendering", "Module::disassemble panics on a module the loader accepts: OpConstant %#x whose result type is declared "
+                              "as %s(width %d%s) after the constant: %s" % (v, tname, w, ", signed" if sg else "", real["panic"]), {"cmd": "load_disassemble %s" % words, "real": real})
+            else:
+                ctx.ob(tag, None, "panic edge (%s) feasible in the model for width=%d signed=%d value=%#x but the compiled crate renders the witness module: %s" % (r.info, w, sg, v, str(real)[:160]))
 
 
 def disas_ext_inst(ctx, q, S, rp):
